@@ -1253,6 +1253,9 @@ func (g *Gen) try(m *Model, eng *Engine) *Cmd {
 			return nil
 		}
 		cmd.Native, cmd.Filter, cmd.Verdict = "matcher", f, r.Chance(0.5)
+		if g.P.Prop == "C08" && r.Chance(0.5) {
+			cmd.Native = "matcher-panic"
+		}
 		g.natFilters = append(g.natFilters, natFilter{name, f})
 	case "keyupdate":
 		if mt == nil || g.avoid["update-names-key-attribute"] {
